@@ -35,11 +35,11 @@ def run(prog: Program, rep: Report, tier: str):
         audit_c01(prog, rep)
 
 
-def rule_value(prog, rep: Report, classes):
-    rep.rule("C01.value",
+def rule_value(prog, rep: Report, classes, R="C01.value", minimum=55):
+    rep.rule(R,
              "for every bijection class and direction, the point returned by X_and_log_det equals "
              "the value of X as canonical terms (children assumed to satisfy the same: induction axiom)",
-             minimum=55)
+             minimum=minimum)
     for c in classes:
         r1 = bij.rank1_atoms(prog, c)
         for plain, both in (("transform", "transform_and_log_det"), ("inverse", "inverse_and_log_det")):
@@ -50,27 +50,27 @@ def rule_value(prog, rep: Report, classes):
             if is_stub(t_plain) and is_stub(t_both):
                 continue
             if is_stub(t_plain) != is_stub(t_both):
-                rep.violated("C01.value", site, k, f"one of {plain}/{both} is an unconditional raise, the other is not")
+                rep.violated(R, site, k, f"one of {plain}/{both} is an unconditional raise, the other is not")
                 continue
             a = bij.commute_rank1(apply_axiom(t_plain), r1)
             b = bij.commute_rank1(apply_axiom(val(t_both)), r1)
             if has_unknown(a) or has_unknown(b):
-                rep.undecided("C01.value", site, k, f"unmodelled construct: {find_unknown(a) or find_unknown(b)}")
+                rep.undecided(R, site, k, f"unmodelled construct: {find_unknown(a) or find_unknown(b)}")
             elif equal(a, b):
-                rep.holds("C01.value", site, k, show(a, 200), nontrivial=(t_plain != val(t_both)) or True)
+                rep.holds(R, site, k, show(a, 200))
             else:
-                rep.violated("C01.value", site, k,
+                rep.violated(R, site, k,
                              f"value of {both} differs from {plain}: {explain(b, a)}")
 
 
-def rule_mirror(prog, rep: Report, classes):
-    rep.rule("C01.mirror",
+def rule_mirror(prog, rep: Report, classes, RM="C01.mirror", RD="C01.direction", minimum=24):
+    rep.rule(RM,
              "delegating classes: inverse == sigma(transform) and inverse_and_log_det == "
              "sigma(transform_and_log_det), sigma = swap child method direction + reverse fold order; "
-             "framing operations are part of the compared term", minimum=24)
-    rep.rule("C01.direction",
+             "framing operations are part of the compared term", minimum=minimum)
+    rep.rule(RD,
              "forward methods of a combinator reach only the children's forward methods "
-             "(Invert: only the opposite ones)", minimum=24)
+             "(Invert: only the opposite ones)", minimum=minimum)
     extra = [prog.cls(q) for q in bij.EXTRA_INTERFACE_CLASSES]
     n_deleg = 0
     for c in list(classes) + extra:
@@ -85,13 +85,13 @@ def rule_mirror(prog, rep: Report, classes):
             k = f"{c.qualname}.{inv}==sigma({fwd})"
             a, b = method_term(prog, c, fwd), method_term(prog, c, inv)
             if has_unknown(a) or has_unknown(b):
-                rep.undecided("C01.mirror", site, k, f"unmodelled construct: {find_unknown(a) or find_unknown(b)}")
+                rep.undecided(RM, site, k, f"unmodelled construct: {find_unknown(a) or find_unknown(b)}")
                 continue
             sa = sigma(a)
             if equal(sa, b):
-                rep.holds("C01.mirror", site, k, show(b, 200))
+                rep.holds(RM, site, k, show(b, 200))
             else:
-                rep.violated("C01.mirror", site, k, f"{inv} is not the mirror of {fwd}: {explain(b, sa)}")
+                rep.violated(RM, site, k, f"{inv} is not the mirror of {fwd}: {explain(b, sa)}")
             # direction
             kd = f"{c.qualname}.{fwd}:child-direction"
             names = {m for m, recv in child_methods(a)}
@@ -100,11 +100,11 @@ def rule_mirror(prog, rep: Report, classes):
             else:
                 want = {"transform"} if fwd == "transform" else {"transform_and_log_det", "transform"}
             if not names:
-                rep.violated("C01.direction", method_site(prog, c, fwd), kd,
+                rep.violated(RD, method_site(prog, c, fwd), kd,
                              f"{fwd} no longer applies the wrapped bijection (no child method reached)")
             elif names <= want:
-                rep.holds("C01.direction", method_site(prog, c, fwd), kd, f"reaches {sorted(names)}")
+                rep.holds(RD, method_site(prog, c, fwd), kd, f"reaches {sorted(names)}")
             else:
-                rep.violated("C01.direction", method_site(prog, c, fwd), kd,
+                rep.violated(RD, method_site(prog, c, fwd), kd,
                              f"{fwd} reaches child methods {sorted(names)}, expected only {sorted(want)}")
     rep.analysed["delegating_classes"] = n_deleg
